@@ -792,7 +792,8 @@ def gen_concat(rng, tier='quick', force=None):
     if force:
         hist = [dict(s) for s in CONCAT_FIXED] + hist[:3]
     return dict(stream='concat', fmts=fmts, T=T, F=F, seed=rng.randrange(10 ** 6), pre=pre, order=order, hist=hist,
-                lose=[f == 'v4' and rng.random() < 0.6 for f in fmts])
+                lose=[f == 'v4' and rng.random() < 0.6 for f in fmts],
+                index=[rng.choice([None, None, 2]), rng.choice([None, None, 2])])
 
 
 def _h5_cps(ants):
@@ -911,6 +912,7 @@ def run_concat(ctx, cfg):
         member_of = np.concatenate([np.full(seg[n + 1] - seg[n], n) for n in range(len(members))])
         is_h5 = np.array([f != 'v4' for f in fmts])[member_of]
         cur_f, cur_w = 'all', 'all'
+        s1, s2 = [slice(None) if x is None else slice(None, None, x) for x in cfg.get('index', [None, None])]
         for i in range(-1, len(hist)):
             st = hist[i] if i >= 0 else {}
             case = dict(stream='concat', cfg=dict(cfg, hist=hist[:i + 1]), step=i)
@@ -929,9 +931,9 @@ def run_concat(ctx, cfg):
                         kw['pol'] = st['pol']
                     c.select(**kw)
                 ix = np.ix_(c.dumps, c.channels, np.nonzero(c._corrprod_keep)[0])
-                flags = np.asarray(c.flags[:])
-                vis = np.asarray(c.vis[:])
-                wts = np.asarray(c.weights[:])
+                flags = np.asarray(c.flags[s1, s2])
+                vis = np.asarray(c.vis[s1, s2])
+                wts = np.asarray(c.weights[s1, s2])
                 mflags = [np.asarray(d.flags[:]) for d in c.datasets]
                 mraw = [np.asarray(d.raw_flags[:]) if f == 'v4' else None for d, f in zip(c.datasets, fmts)]
                 mmask = [int(np.asarray(d._flags_select).ravel()[0]) for d in c.datasets]
@@ -951,21 +953,24 @@ def run_concat(ctx, cfg):
             if only_fw and before != after:
                 ctx.disagree('stream=concat;obs=selection_moved;' + tag, case, after[3], before[3],
                              'a call carrying only flags= / weights= changed the time / frequency / product selection')
-            if flags.shape != c.shape or flags.dtype != bool:
+            if flags.shape != vis_all[ix][s1, s2].shape or flags.dtype != bool:
                 ctx.disagree('stream=concat;obs=shape;' + tag, case, [flags.shape, str(flags.dtype)], list(c.shape),
                              'shape / dtype of the flags of the concatenated data set')
                 return
             fb = flags.view(np.uint8) != 0
             n_before = len(ctx.disagreements)
-            if not np.array_equal(vis, vis_all[ix]):
+            if not np.array_equal(vis, vis_all[ix][s1, s2]):
                 ctx.disagree('stream=concat;obs=vis;' + tag, case, vis.shape, vis_all[ix].shape,
                              'visibilities of the concatenated data set changed with the flag / weight selection')
-            raw_sel = raw_all[ix]
-            mem_sel = member_of[c.dumps]
+            raw_sel = raw_all[ix][s1, s2]
+            mem_sel = member_of[c.dumps][s1]
+            h5_sel = is_h5[c.dumps][s1]
             # property (only when the last call went to the whole): spec columns; tie: model columns
             for kind, col, wcol in (('property', 2, 3), ('tie', 0, 1)):
                 if kind == 'property' and not ends_whole:
                     continue
+                if kind == 'tie' and len(ctx.disagreements) > n_before:
+                    break       # already reported against the spec: the model columns would only repeat it
                 sfx = '' if kind == 'property' else ';vs=model'
                 masks = np.array([r[col] for r in rows], dtype=np.uint8)
                 exp = (raw_sel & masks[mem_sel][:, None, None]) != 0
@@ -977,7 +982,7 @@ def run_concat(ctx, cfg):
                                  '(member %d, raw byte %d)' % (_py_arg(cur_f), int(mem_sel[bad[0]]), int(raw_sel[bad])),
                                  spec=int(rows[int(mem_sel[bad[0]])][2]), kind=kind)
                 won = np.array([bool(r[wcol]) for r in rows])
-                exp_w = np.where((won[mem_sel] | ~is_h5[c.dumps])[:, None, None], wts_all[ix], np.float32(1.0))
+                exp_w = np.where((won[mem_sel] | ~h5_sel)[:, None, None], wts_all[ix][s1, s2], np.float32(1.0))
                 if not np.array_equal(wts, exp_w):
                     bad = tuple(int(b) for b in np.argwhere(wts != exp_w)[0])
                     ctx.disagree('stream=concat;obs=weights;fmts=%s;wsel=%s;weights_kw_in_step=%s%s'
@@ -990,16 +995,18 @@ def run_concat(ctx, cfg):
                     break
             # every member on its own: internal mask / weight selection, its own flags, v4 raw flags
             for n, (d, f) in enumerate(zip(c.datasets, fmts)):
+                if len(ctx.disagreements) > n_before:
+                    break
                 mtag = '%s;member_fmt=%s' % (tag, f)
-                if mmask[n] != rows[n][0] or (f != 'v4' and mwts[n] != rows[n][1]):
+                if ends_whole and mmask[n] != rows[n][2]:
+                    ctx.disagree('stream=concat;obs=member_mask;%s' % mtag, dict(case, member=n), mmask[n], rows[n][0],
+                                 'mask of a member differs from the bits of the names selected on the whole (%r)'
+                                 % (_py_arg(cur_f),), spec=rows[n][2])
+                elif mmask[n] != rows[n][0] or (f != 'v4' and mwts[n] != rows[n][1]):
                     ctx.disagree('stream=concat;obs=member_selection;%s;vs=model' % mtag, dict(case, member=n),
                                  [mmask[n], mwts[n]], [rows[n][0], rows[n][1]],
                                  '_flags_select / _weights_select of a member differ from the model', spec=rows[n][2],
                                  kind='tie')
-                if ends_whole and mmask[n] != rows[n][2] and len(ctx.disagreements) == n_before:
-                    ctx.disagree('stream=concat;obs=member_mask;%s' % mtag, dict(case, member=n), mmask[n], rows[n][0],
-                                 'mask of a member differs from the bits of the names selected on the whole (%r)'
-                                 % (_py_arg(cur_f),), spec=rows[n][2])
                 t_sel = c.dumps[(c.dumps >= seg[n]) & (c.dumps < seg[n + 1])]
                 rix = np.ix_(t_sel, c.channels, np.nonzero(c._corrprod_keep)[0])
                 mf = mflags[n].view(np.uint8) != 0 if mflags[n].dtype == bool else mflags[n] != 0
